@@ -300,8 +300,28 @@ fn win_env_case(ctx: &mut Ctx, rng: &mut Rng) {
     }
 }
 
+/// Can a process running as another user reach (search) every directory on the way to `p`?
+fn world_reachable(p: &std::path::Path) -> bool {
+    use std::os::unix::fs::PermissionsExt;
+    let mut cur = Some(p);
+    while let Some(d) = cur {
+        if let Ok(md) = std::fs::metadata(d) {
+            if md.is_dir() && md.permissions().mode() & 0o001 == 0 {
+                return false;
+            }
+        }
+        cur = d.parent();
+    }
+    true
+}
+
 pub fn run(ctx: &mut Ctx) {
-    let n = ctx.n(3000, 20_000);
+    // children started under another uid must be able to reach the scratch directory (true under /verif; not e.g. under /root)
+    let other_uids_ok = world_reachable(&ctx.work) && world_reachable(&ctx.vchild);
+    if !other_uids_ok {
+        ctx.count("identity_changes_to_other_users_skipped(scratch directory not reachable for them)", 1);
+    }
+    let n = ctx.n(3000, 150_000);
     ctx.family("random", n, |ctx, rng, i| {
         // argv
         let shape = rng.below(10);
@@ -361,9 +381,9 @@ pub fn run(ctx: &mut Ctx) {
         };
         // identity: one of the combinations, all of them over time
         let idc = rng.below(8);
-        let uids = [0u32, 65534, 1234];
+        let uids: &[u32] = if other_uids_ok { &[0u32, 65534, 1234] } else { &[0u32] };
         let gids = [0u32, 65534, 4321];
-        let setuid = if idc & 1 != 0 { Some(*rng.pick(&uids)) } else { None };
+        let setuid = if idc & 1 != 0 { Some(*rng.pick(uids)) } else { None };
         let setgid = if idc & 2 != 0 { Some(*rng.pick(&gids)) } else { None };
         let setpgid = idc & 4 != 0;
         let c = Case { argv, exe_override, env, cwd, setuid, setgid, setpgid };
@@ -390,10 +410,10 @@ pub fn run(ctx: &mut Ctx) {
         ctx.count("duplicate_key_placements", 1);
         run_case(ctx, &c, "dupkeys");
     });
-    let nn = ctx.n(400, 2000);
+    let nn = ctx.n(400, 10_000);
     ctx.family("nul", nn, |ctx, rng, i| nul_case(ctx, rng, i));
     if win_popen::EXTRACTED {
-        let nw = ctx.n(5000, 50_000);
+        let nw = ctx.n(5000, 200_000);
         ctx.family("winenv", nw, |ctx, rng, _i| win_env_case(ctx, rng));
     } else {
         ctx.inconclusive("extraction of format_env_block failed", J::Null);
